@@ -4,6 +4,7 @@ from fractions import Fraction
 from harness.core import *
 from harness import gen
 from harness.props._sp_util import *
+from harness.props import _c04_pat as pat
 
 PID = "C04"
 LEVEL = "proof"
@@ -33,6 +34,7 @@ ASSUMPTIONS = [
     "integer log-weights, so float arithmetic is exact and ties are frequent; any optimal derivation is accepted",
     "the optimum is the exact Viterbi-semiring least fixed point computed by the Coq model (Kleene iteration to a fixed point); start assignments whose optimum is -inf or +inf are outside the property and skipped",
     "the property is about the FGG as it is at the time of the call: in a history of calls on one object (in-place weight updates, a new tensor assigned, rules added in between) every call is judged against the state the Coq model (Model/ViterbiHist.v hist_cases) computes from the initial state and the updates; the harness checks by read-back that each update reached the factor",
+    "factors whose weights are PatternedTensors (diagonal, sum-embedded, one-hot, expanded stride-0, product patterns; default -inf, rarely finite) denote a dense tensor; that denotation is computed by the harness from the plain-data pattern (harness/props/_c04_pat.py pat_dense, not by to_dense(), which is only read back as a sanity check) and is what the Coq oracle is given. Every node label has ONE index type (atom / b+m+a sum / 2x2 product) shared by all factors, as the library requires (Axis.unify reports 'index type mismatch' otherwise and the result is then unspecified: outside the property)",
     "how the FGG object was built (one label object per name, a new equal label object per use, the convenience API, FGG.copy()) must not matter: all four constructions are generated",
 ]
 SRV = SR("viterbi", "float64")
@@ -129,12 +131,14 @@ class Obj:
             self.fgg.add_rule(rule)
         self.rules.append((rule, nodes, edges))
 
-def build_variant(spec, variant, rng, n_rules=None, ids="mixed"):
+def build_variant(spec, variant, rng, n_rules=None, ids="mixed", pats=None):
     """an FGG for spec whose label objects are, by variant:
     'shared' one EdgeLabel/NodeLabel object per name (as json_to_fgg does); 'fresh' a new, equal object for (almost)
     every use; 'api' built with new_finite_domain / new_node / new_edge / new_rule / new_finite_factor (a new label
     object per node, edge and left-hand side); 'copy' FGG.copy() of a 'shared' object.  Only the first n_rules rules
-    are added (Obj.add_rule adds the others later)."""
+    are added (Obj.add_rule adds the others later).  pats: terminal -> pattern (harness/props/_c04_pat.py): that factor's
+    weights are the PatternedTensor built from the pattern (whose hand-computed denotation spec["weights"] holds; checked
+    by read-back) instead of a dense torch tensor."""
     import fggs, torch
     o = Obj(spec, "shared" if variant == "copy" else variant, rng, ids=ids)
     st = spec["start"]
@@ -154,6 +158,13 @@ def build_variant(spec, variant, rng, n_rules=None, ids="mixed"):
             o.fgg.add_domain(o.NL(i, variant == "fresh"), fggs.FiniteDomain(["v%d_%d" % (i, k) for k in range(size)]))
     for el, w in sorted(spec["weights"].items()):
         t = torch.tensor(gen.nested_map(w, SRV.wconv), dtype=SRV.torch_dtype())
+        if pats and el in pats:
+            shape = [spec["nlabels"][nl] for nl in spec["elabels"][el]["type"]]
+            want = t.reshape(shape)
+            t = pat.pat_build(pats[el], SRV.wconv, SRV.torch_dtype())
+            if list(t.shape) != shape or not torch.equal(t.to_dense(), want):
+                raise RuntimeError("harness: PatternedTensor built from pattern %r of t%d does not denote the hand-computed tensor (to_dense() %r != %r)"
+                                   % (pats[el], el, t.to_dense().tolist(), want.tolist()))
         name = gen.el_name(spec, el)
         if variant == "api" and o.fgg.has_edge_label_name(name):
             fac = o.fgg.new_finite_factor(name, t)
@@ -275,9 +286,9 @@ def run_history(spec, plan, rng):
     part = dict(spec, rules=spec["rules"][:plan["cut"]])
     return (grammar_wire(part), weights_wire(spec, SRV), K_ENCL, wire_steps), recs
 
-def run_impl(spec, xi, ids="explicit", rng=None, variant="shared"):
+def run_impl(spec, xi, ids="explicit", rng=None, variant="shared", pats=None):
     import fggs
-    b = gen.build_fgg(spec, SRV.wconv, ids=ids, rng=rng, dtype=SRV.torch_dtype()) if variant == "shared" else build_variant(spec, variant, rng, ids=ids)
+    b = gen.build_fgg(spec, SRV.wconv, ids=ids, rng=rng, dtype=SRV.torch_dtype()) if (variant == "shared" and not pats) else build_variant(spec, variant, rng, ids=ids, pats=pats)
     with warnings.catch_warnings():
         warnings.simplefilter("ignore")
         sp = fggs.sum_product(b.fgg, semiring=SRV.semiring(), method="fixed-point")
@@ -379,11 +390,51 @@ def run(tier, seed):
             avals.append((grammar_wire(spec), weights_wire(spec, SRV), list(xi), (KMAX, TOL), (obs[0], obs[1])))
             meta.append((spec, list(xi), obs, note, case))
     T['impl_single_calls'] = round(time.time() - w0, 1); w0 = time.time()
+    # --- grammars whose factors are PatternedTensors (diagonal / embedded / one-hot / expanded / product patterns; default
+    # -inf, rarely finite), nonterminals of arity 2-3 over domains of different sizes, rules with 2-3 external nodes and
+    # internal nodes tied to external ones by a pattern; the model is given the hand-computed dense denotation
+    npat = int(os.environ.get("VERIF_NPAT", 0)) or (56 if tier == "quick" else 1200)
+    pstat = dict(grammars=0, calls=0, judged=0, judged_first_two_externals_differ=0, grammars_with_internal_node_tied_to_external=0, kinds={}, variants={})
+    first_pat = len(vals)
+    for i in range(npat):
+        spec, pats = pat.pattern_spec(rng, recursive=(i % 4 == 3))
+        distinct.add(json.dumps(gen.spec_jsonable(spec), sort_keys=True)); pstat["grammars"] += 1
+        for f in spec["features"]: feats[f] = feats.get(f, 0) + 1
+        if pat.tied_internal(spec, pats): pstat["grammars_with_internal_node_tied_to_external"] += 1
+        for p_ in pats.values(): pstat["kinds"][p_["kind"]] = pstat["kinds"].get(p_["kind"], 0) + 1
+        st = spec["elabels"][spec["start"]]["type"]
+        xis = list(itertools.product(*[range(spec["nlabels"][nl]) for nl in st]))
+        rng.shuffle(xis)
+        xis.sort(key=lambda x: x[0] == x[1])          # start assignments whose first two components differ first (stable)
+        variant = VARIANTS[i % 4]; ids = ["explicit", "implicit", "mixed"][i % 3]
+        pstat["variants"][variant] = pstat["variants"].get(variant, 0) + 1
+        for xi in list(dict.fromkeys(xis[:3] + xis[-1:])):
+            bseed = rng.getrandbits(30)
+            case = dict(spec=gen.spec_jsonable(spec), start_asst=list(xi), variant=variant, ids=ids, build_seed=bseed,
+                        patterns={str(el): pat.pat_jsonable(p_) for el, p_ in pats.items()})
+            try:
+                spv, tree, dw = run_impl(spec, list(xi), ids=ids, rng=random.Random(bseed), variant=variant, pats=pats)
+            except Exception as e:
+                violations.append(Violation("harness could not run viterbi/sum_product on a grammar with PatternedTensor weights: %r" % (e,), case=case,
+                                            corr="corr:viterbi", failing_input_found=True, call="fggs.viterbi"))
+                continue
+            if isinstance(tree, tuple) and tree[0] == "exc":
+                obs = (1, DUMMY, (0, Fraction(0)), SRV.obs(spv)); note = tree[1]
+            else:
+                obs = (0, tree, tv(dw) if not isinstance(dw, tuple) else (2, Fraction(0)), SRV.obs(spv))
+                note = dw[1] if isinstance(dw, tuple) else None
+            note = ((note + "; ") if note else "") + "PatternedTensor weights: " + ", ".join("t%s=%s" % (el, p_["kind"]) for el, p_ in sorted(pats.items()))
+            vals.append((grammar_wire(spec), weights_wire(spec, SRV), list(xi), K_ENCL, obs))
+            avals.append((grammar_wire(spec), weights_wire(spec, SRV), list(xi), (KMAX, TOL), (obs[0], obs[1])))
+            meta.append((spec, list(xi), obs, note, case)); pstat["calls"] += 1
+    T['impl_patterned_calls'] = round(time.time() - w0, 1); w0 = time.time()
     codes, nk = run_model(VIT, vals, seed=seed, coq_sample=6 if tier == "quick" else 40, tag="c04")
     skipped = {30: 0, 31: 0}; judged = 0
     for (spec, xi, obs, note, case), c in zip(meta, codes):
         if c in skipped: skipped[c] += 1; continue
         judged += 1
+        if "patterns" in case:
+            pstat["judged"] += 1; pstat["judged_first_two_externals_differ"] += int(xi[0] != xi[1])
         if c == 0: continue
         violations.append(Violation(WHAT.get(c, "framework inconsistency (code %d)" % c) + ((" [" + note + "]") if note else "") + " [object built as '%s']" % case["variant"],
                                     case=case, observed=obs,
@@ -456,9 +507,9 @@ def run(tier, seed):
                                     case=case, observed=rc["obs"], oracle={5: "wf_dtree_b", 6: "weight = optimum", 7: "derive weight", 8: "optimum"}.get(cc, "optimum finite => derivation"),
                                     corr="C04 / corr:viterbi_hist (Model/ViterbiHist.v, C04_hist_check_optimal)", failing_input_found=cc in WHAT,
                                     call="fggs.viterbi(fgg, %r)" % (tuple(s.get("start_asst", ())),), finding_key=classify(spec, rc["obs"])))
-    cov = dict(wall_seconds_by_phase=T, evaluations=len(vals) + hist["calls"], single_calls=len(vals), viterbi_model=alg, exact_agreement=alg["exact_agreement"], kernel_reevaluated_alg=ank, distinct_nontrivial=len(distinct), judged=judged,
+    cov = dict(wall_seconds_by_phase=T, evaluations=len(vals) + hist["calls"], single_calls=len(vals), patterned_weights=pstat, viterbi_model=alg, exact_agreement=alg["exact_agreement"], kernel_reevaluated_alg=ank, distinct_nontrivial=len(distinct), judged=judged,
                skipped_divergent=skipped[30], skipped_optimum_not_finite=skipped[31], object_construction=vhist, histories=hist, kernel_reevaluated_hist=hnk,
-               rule="random FGG specs with integer log-weights in {-inf,-2,-1,0} (two thirds non-recursive, one third recursive incl. weight-0 cycles and non-linear recursion; chains of 1-4 nonterminals, 1 = a singleton self-recursive component), up to two start assignments each; forced shapes: rules whose attached nodes are all external, isolated nodes, size-1 domains, nullary factors, repeated attachments; the FGG object is built in four ways in rotation (one label object per name / a new equal EdgeLabel+NodeLabel object per use / the convenience API new_node,new_edge,new_rule,new_finite_factor / FGG.copy()); plus histories of 3 (thorough: 2-5) calls on one object with in-place updates of the tensor given to FiniteFactor, of weights.physical, assignment of a new tensor, and rules added between calls (updates prefer entries the previous answer used), every call judged against the state at that call, with deep before/after snapshots of the object around every call; distinct by spec, all with >= 1 rule",
+               rule="random FGG specs with integer log-weights in {-inf,-2,-1,0} (two thirds non-recursive, one third recursive incl. weight-0 cycles and non-linear recursion; chains of 1-4 nonterminals, 1 = a singleton self-recursive component), up to two start assignments each; forced shapes: rules whose attached nodes are all external, isolated nodes, size-1 domains, nullary factors, repeated attachments; the FGG object is built in four ways in rotation (one label object per name / a new equal EdgeLabel+NodeLabel object per use / the convenience API new_node,new_edge,new_rule,new_finite_factor / FGG.copy()); plus histories of 3 (thorough: 2-5) calls on one object with in-place updates of the tensor given to FiniteFactor, of weights.physical, assignment of a new tensor, and rules added between calls (updates prefer entries the previous answer used), every call judged against the state at that call, with deep before/after snapshots of the object around every call; plus grammars whose factors are PatternedTensors (pattern_spec: 2-3 node labels typed atom / sum b+m+a / 2x2 product with domains of different sizes 1-4, nonterminals of arity 2-3 incl. the start symbol, rules with 2-3 external and 0-2 internal nodes, each internal node attached to a factor that also visits an external node, one quarter recursive; per factor a diagonal over 2-3 axes (embedded where the sizes differ), embedded, one-hot, expanded stride-0, product, unit or dense axes, default -inf or rarely -2, or a plain torch tensor), up to 4 start assignments each (those whose first two components differ first), all four object constructions, judged by vit_check and vit_alg_check against the hand-computed dense denotation (coverage.patterned_weights); distinct by spec, all with >= 1 rule",
                feature_histogram=feats, kernel_reevaluated=nk,
                samples=[dict(spec=gen.spec_jsonable(meta[0][0]), start_asst=meta[0][1], observed=meta[0][2])] + ([dict(history=hmeta[0][1])] if hmeta else []) if meta else [],
                open_items=["the inside of log_viterbi_einsum_forward (physical/virtual axis translation of the arg-max pointers, torch_semiring_einsum's tie-breaking) is taken by contract in Model/ViterbiAlg.v (maximum + one maximiser, first in row-major order): the model and the implementation are compared up to ties (exact_agreement is reported); DESIGN's L4 argmax_einsum_model is not built",
@@ -466,7 +517,8 @@ def run(tier, seed):
                            "the cell-wise array-of-structs representation of the three pointer tensors, [rebuild] using the first (not last) binding of a repeated external node, and kmax = 0 (model: None; code: unbound/stale variables) are modelling choices validated by the correspondence only",
                            "FGGDerivation.derive() (hyperedge replacement) is not modelled in Gallina: C04_weight_is_factor_product proves that the derivation's weight is the product of its rule instances' terminal factor entries; that derive()'s factor graph has exactly these edges and values is checked per case by re-scoring derive()'s output in the harness (verdict 7)",
                            "positive-weight cycles (no finite attained maximum): the exact enclosure does not converge, verdict 30, case skipped (outside the property's quantifier)",
-                           "object identity (is vs ==) has no counterpart in the Gallina model (labels are numbers): equal-but-not-identical label objects are covered by the correspondence only (four construction variants); histories change weights and add rules, they do not remove rules, change domains or options (kmax/tol/semiring) between calls"])
+                           "object identity (is vs ==) has no counterpart in the Gallina model (labels are numbers): equal-but-not-identical label objects are covered by the correspondence only (four construction variants); histories change weights and add rules, they do not remove rules, change domains or options (kmax/tol/semiring) between calls",
+                           "the denotation of a PatternedTensor (physical storage + axis patterns -> dense tensor) is computed in the harness (pat_dense), not in Gallina: C04's Coq model sees dense weights only (the Gallina model of patterns is C06/C07's); histories of calls are not run on patterned weights; factors typed differently at one node label (index type mismatch, e.g. a ProductAxis against a SumAxis: einsum silently returns the semiring zero there, with a UserWarning) are not generated"])
     return cov, violations
 
 def replay(path):
@@ -480,7 +532,8 @@ def replay(path):
               "object changed by a call:", [rc["changed"] for rc in recs])
         return 1 if (code not in (0, 31) or any(rc["changed"] for rc in recs)) else 0
     xi = c["start_asst"]
-    spv, tree, dw = run_impl(spec, xi, ids=c.get("ids", "explicit"), rng=random.Random(c.get("build_seed", 0)), variant=c.get("variant", "shared"))
+    pats = {int(el): pat.pat_from_json(p_) for el, p_ in c["patterns"].items()} if "patterns" in c else None
+    spv, tree, dw = run_impl(spec, xi, ids=c.get("ids", "explicit"), rng=random.Random(c.get("build_seed", 0)), variant=c.get("variant", "shared"), pats=pats)
     if isinstance(tree, tuple) and tree[0] == "exc":
         obs = (1, DUMMY, (0, Fraction(0)), SRV.obs(spv))
     else:
@@ -492,7 +545,7 @@ def replay(path):
 
 MANIFEST = dict(
     level="proof",
-    text="Coq (Props/C04.v, all closed, no premises about the semiring): derivation trees, their weight and well-formedness are defined once (shared with C01). C04_wf_reflect: the executable well-formedness test decides the Prop (rule of the nonterminal rewritten, every node of the rule instance has a value in its domain, externals agree with the parent, exactly one child per edge) for every grammar. C04_tree_weight_below_kleene: in the Viterbi semiring every well-formed derivation's weight is below the Kleene iterate at its depth. C04_optimal: when the exact max-plus Kleene iteration reaches its fixed point, that value bounds the weight of every well-formed derivation of every nonterminal and assignment (any depth), equals the maximum over the derivations of bounded depth and is attained by one of them unless it is -inf. C04_check_sound: verdict 0 of the check means the returned derivation is well formed, has finite weight, no derivation of the start symbol at that assignment weighs more, sum_product(Viterbi) contains that value and derive()'s re-scored weight equals it. C04_weight_is_factor_product: the weight of a derivation is the product of the terminal factor entries of its rule instances (= the score of derive()'s factor graph). The (max,+) law records are proved (C04_trop_ring, C04_trop_ordered). Every derivation returned by fggs.viterbi on generated FGGs is converted to a tree and judged by the extracted check. The algorithm itself is modelled in Model/ViterbiAlg.v (arg-max per rule, F_viterbi's value / lhs_pointer / rhs_pointer cells with first-rule filling and strict-improvement overwrite, the per-component loop with the pointer merge of repair b171ddf, reconstruct with fuel): C04_ptr_inv (after any number of passes every finite cell's pointers name a rule and an in-range assignment whose edge product, with the values of the pass the pointer was recorded in, is the cell's value), C04_reconstruct_terminates (if every loop stopped with two equal iterates, reconstruct with fuel #components*(kmax+1) returns, for every finite cell, a well-formed derivation weighing the cell's value), C04_tables_lfp / C04_alg_optimal (the value tables are the least fixed point of the max-plus equations, so viterbi_model's derivation is optimal and equals the enclosure's optimum), C04_alg_check_sound (verdict 0/32 of the second check: the implementation's derivation is well formed and optimal), C04_old_pointer_loop_refuted (the pre-repair pointer discipline loops on X -> X a | b for every fuel), C04_unconverged_weight_refuted (the convergence premise is needed). fggs.viterbi's derivation is compared with viterbi_model's on every generated case (equal, or equal weight up to tie-breaking). Histories of calls on ONE FGG object are modelled in Model/ViterbiHist.v as a state machine (state = rules + terminal weights; a step = in-place weight updates and added rules, then one observed call): C04_hist_state (call j is judged against the initial rules plus all rules added, and the initial weights with all updates applied in order, up to step j; earlier observations play no role), C04_hist_update_same / _other (an update writes exactly one entry), C04_hist_check_sound / C04_hist_check_optimal (verdict 0: every call of the history that falls under the property returned a well-formed derivation that is optimal for the rules and weights the object had AT THAT CALL), C04_hist_check_rejects (verdict 100*j+c: call j is the first rejected one and c is vit_check's verdict on it), C04_example_hist (a derivation computed from an earlier state is rejected as call 2 with verdict 6). The harness generates such histories (in-place update of the tensor handed to FiniteFactor, of weights.physical, a new tensor assigned, rules added; updates prefer entries the previous answer relied on), takes deep snapshots of the object before/after every call (the call must not change it), and builds every FGG in one of four ways (shared label objects, a new equal EdgeLabel/NodeLabel object per use, the convenience API, FGG.copy()); chains of ONE nonterminal (a singleton self-recursive component whose optimum needs the recursive rule several times) are generated.",
+    text="Coq (Props/C04.v, all closed, no premises about the semiring): derivation trees, their weight and well-formedness are defined once (shared with C01). C04_wf_reflect: the executable well-formedness test decides the Prop (rule of the nonterminal rewritten, every node of the rule instance has a value in its domain, externals agree with the parent, exactly one child per edge) for every grammar. C04_tree_weight_below_kleene: in the Viterbi semiring every well-formed derivation's weight is below the Kleene iterate at its depth. C04_optimal: when the exact max-plus Kleene iteration reaches its fixed point, that value bounds the weight of every well-formed derivation of every nonterminal and assignment (any depth), equals the maximum over the derivations of bounded depth and is attained by one of them unless it is -inf. C04_check_sound: verdict 0 of the check means the returned derivation is well formed, has finite weight, no derivation of the start symbol at that assignment weighs more, sum_product(Viterbi) contains that value and derive()'s re-scored weight equals it. C04_weight_is_factor_product: the weight of a derivation is the product of the terminal factor entries of its rule instances (= the score of derive()'s factor graph). The (max,+) law records are proved (C04_trop_ring, C04_trop_ordered). Every derivation returned by fggs.viterbi on generated FGGs is converted to a tree and judged by the extracted check. The algorithm itself is modelled in Model/ViterbiAlg.v (arg-max per rule, F_viterbi's value / lhs_pointer / rhs_pointer cells with first-rule filling and strict-improvement overwrite, the per-component loop with the pointer merge of repair b171ddf, reconstruct with fuel): C04_ptr_inv (after any number of passes every finite cell's pointers name a rule and an in-range assignment whose edge product, with the values of the pass the pointer was recorded in, is the cell's value), C04_reconstruct_terminates (if every loop stopped with two equal iterates, reconstruct with fuel #components*(kmax+1) returns, for every finite cell, a well-formed derivation weighing the cell's value), C04_tables_lfp / C04_alg_optimal (the value tables are the least fixed point of the max-plus equations, so viterbi_model's derivation is optimal and equals the enclosure's optimum), C04_alg_check_sound (verdict 0/32 of the second check: the implementation's derivation is well formed and optimal), C04_old_pointer_loop_refuted (the pre-repair pointer discipline loops on X -> X a | b for every fuel), C04_unconverged_weight_refuted (the convergence premise is needed). fggs.viterbi's derivation is compared with viterbi_model's on every generated case (equal, or equal weight up to tie-breaking). Histories of calls on ONE FGG object are modelled in Model/ViterbiHist.v as a state machine (state = rules + terminal weights; a step = in-place weight updates and added rules, then one observed call): C04_hist_state (call j is judged against the initial rules plus all rules added, and the initial weights with all updates applied in order, up to step j; earlier observations play no role), C04_hist_update_same / _other (an update writes exactly one entry), C04_hist_check_sound / C04_hist_check_optimal (verdict 0: every call of the history that falls under the property returned a well-formed derivation that is optimal for the rules and weights the object had AT THAT CALL), C04_hist_check_rejects (verdict 100*j+c: call j is the first rejected one and c is vit_check's verdict on it), C04_example_hist (a derivation computed from an earlier state is rejected as call 2 with verdict 6). The harness generates such histories (in-place update of the tensor handed to FiniteFactor, of weights.physical, a new tensor assigned, rules added; updates prefer entries the previous answer relied on), takes deep snapshots of the object before/after every call (the call must not change it), and builds every FGG in one of four ways (shared label objects, a new equal EdgeLabel/NodeLabel object per use, the convenience API, FGG.copy()); chains of ONE nonterminal (a singleton self-recursive component whose optimum needs the recursive rule several times) are generated. Grammars whose factors are PatternedTensors (diagonal / sum-embedded / one-hot / expanded / product patterns over node labels with one index type each, domains of different sizes, nonterminals of arity 2-3, internal nodes tied to external ones through a shared physical axis) are generated as plain-data patterns; the oracle judges viterbi's derivation against the dense denotation computed by the harness, so the physical->virtual translation of the arg-max pointers in log_viterbi_einsum_forward is exercised with >= 2 output axes.",
     note="Trusted: Coq kernel, extraction cross-checked by vm_compute, harness conversion of FGGDerivation objects to trees and the harness's re-scoring of derive()'s output; log_viterbi_einsum_forward is modelled by its contract (maximum + a maximiser), derive() itself is not modelled.",
     technique="Coq-verified oracle (well-formedness + optimality against the exact trop least fixed point, proved to be the maximum over all derivation trees) on implementation outputs; code-shaped Gallina model of viterbi.py with invariant proofs, compared with the implementation's derivations up to ties",
     design_ref="DESIGN.md section 6, C04")
